@@ -33,6 +33,11 @@ func init() {
 				if err != nil {
 					fatal(err)
 				}
+				// unlockProject removes the lock relative to the working
+				// directory, so (like prepare) move to the project root first.
+				if err := os.Chdir(rootDir); err != nil {
+					fatal(err)
+				}
 				if err := lockProject(rootDir); err != nil {
 					fatal(err)
 				}
@@ -74,6 +79,10 @@ func init() {
 				var rootDir string
 				rootDir, err = getProjectRootDir()
 				if err != nil {
+					fatal(err)
+				}
+				// See the comment in "config get".
+				if err := os.Chdir(rootDir); err != nil {
 					fatal(err)
 				}
 				if err := lockProject(rootDir); err != nil {
